@@ -64,6 +64,7 @@ fn main() {
         "dump-space" => {
             let mut f = |_: u64, c: &[u8]| println!("{}", std::str::from_utf8(c).unwrap());
             match args[1].as_str() {
+                "nl" => { spaces::space_nl(&mut f); }
                 "l3r" => { spaces::space_l3_reduced(&mut f); }
                 "l2" => { spaces::space_l(0, 2, &mut f); }
                 "sp" => { spaces::space_sp(&mut f); }
